@@ -612,3 +612,74 @@ func Reannounce(r *hx.Rng) []hx.Zs {
 	h = append(h, OpListBinds(b.Ski), OpReadData(e, int64(ja)+1, []int64{1, 3}[ja]))
 	return h
 }
+
+// RoundOverlap is a history for "the teardown of one subscriber does not stop the others being
+// served": three or four peers subscribe to the same local server feature (registry order = order of
+// the requests), then a data change whose notification round is held in the write to the first
+// subscriber while one of the LATER subscribers is disconnected (operation 22 with SetData and
+// Disconnect); every subscriber that is still connected must get exactly one notification of that
+// round.  Listings and another data change follow.
+func RoundOverlap(r *hx.Rng) []hx.Zs {
+	var h []hx.Zs
+	e := []int64{1}
+	h = append(h, OpAddLocalEntity(e),
+		OpAddLocalFeature(e, 1, 1), OpAddFunction(e, 1, 1, true, true),
+		OpAddLocalFeature(e, 2, 1), OpAddFunction(e, 2, 3, true, true))
+	srv := []FAddr{{Dev: 1, Ent: e, Feat: 2}, {Dev: 1, Ent: e, Feat: 3}}
+	n := int64(r.Range(3, 4))
+	var peers []Peer
+	for k := int64(1); k <= n; k++ {
+		p := Peer{Ski: k, Dev: k, Ents: [][]int64{{0}, {1}}, Feats: []RFeat{{Ent: []int64{0}, Id: 0, Type: 5, Role: 2},
+			{Ent: []int64{1}, Id: 1, Type: 1, Role: 0}, {Ent: []int64{1}, Id: 2, Type: 2, Role: 0}}}
+		peers = append(peers, p)
+		h = append(h, OpConnect(k), OpDiscoveryReply(k, p.Msg(0, nil)))
+	}
+	ctr := map[int64]int64{}
+	next := func(p int64) int64 { ctr[p]++; return 100*p + ctr[p] }
+	j := r.Intn(2) // the server feature of the round; fn 1 on feature 1, fn 3 on feature 2
+	// registry order: a random permutation of the peers
+	ord := make([]int, len(peers))
+	for i := range ord {
+		ord[i] = i
+	}
+	for i := len(ord) - 1; i > 0; i-- {
+		k := r.Intn(i + 1)
+		ord[i], ord[k] = ord[k], ord[i]
+	}
+	connected := map[int64]bool{}
+	for _, i := range ord {
+		p := peers[i]
+		if r.Chance(9, 10) {
+			h = append(h, OpSubCall(p.Ski, next(p.Ski), r.Bool(), FAddr{Dev: p.Dev + 1, Ent: e, Feat: int64(j) + 2}, srv[j], int64(j)+2))
+		}
+		if r.Chance(1, 3) { // the other feature too
+			h = append(h, OpSubCall(p.Ski, next(p.Ski), r.Bool(), FAddr{Dev: p.Dev + 1, Ent: e, Feat: int64(1-j) + 2}, srv[1-j], int64(1-j)+2))
+		}
+		connected[p.Ski] = true
+	}
+	change := func(jj int) hx.Zs {
+		return OpSetData(e, int64(jj)+1, []int64{1, 3}[jj], int64(r.Range(1, 900)))
+	}
+	for round := 0; round < r.Range(1, 2); round++ {
+		// the peer removed during the round: mostly not the first of the list
+		k := 1 + r.Intn(len(ord)-1)
+		if r.Chance(1, 8) {
+			k = 0
+		}
+		p := peers[ord[k]]
+		if !connected[p.Ski] {
+			continue
+		}
+		jj := j
+		if r.Chance(1, 6) {
+			jj = 1 - j
+		}
+		h = append(h, OpDuring(change(jj), OpDisconnect(p.Ski)))
+		connected[p.Ski] = false
+		for _, q := range peers {
+			h = append(h, OpListSubs(q.Ski))
+		}
+		h = append(h, change(j))
+	}
+	return h
+}
